@@ -32,7 +32,10 @@ def run(ctx, model_ok):
                             "vertex coordinates of make_Prism (N 1-60), make_Pyramid, make_CylinderSegment (r1 = 0, zero / full-360 / reversed / "
                             "negative / beyond-360 angle ranges), make_Ellipsoid (N 0-24, ValueError for N <= 3), make_Circle and make_Polyline line traces "
                             "against Model/DisplayTrig.lean at Float: lengths and order exact, values relative 1e-12 (observed bit-identical); "
-                            "distinct = distinct (kind, canonical result) pairs (input lines for the coordinate rows)")
+                            "distinct = distinct (kind, canonical result) pairs (input lines for the coordinate rows); place rows: place_and_orient_model3d on dict traces (x/y/z or custom keys, "
+                            "other entries, 1-d and 2-d coordinate arrays) and args tuples (default and custom coordsargs), orientation None / octahedral, position None / integer, scale and "
+                            "length_factor 1 or 2^-2..2^3, **kwargs overriding entries, missing key / args index out of range / different shapes (error kind), all return_* combinations, "
+                            "inputs compared before / after, against Display.placeModel, exact on the 1/64 grid")
     ctx.cov["not_shown"] = ["index arrays of make_Ellipsoid / make_CylinderSegment (their vertex coordinates are modelled and proved on the surface, the triangulation "
                             "between them is not), make_Arrow, make_Sensor, arrow traces of currents (draw_arrow_on_circle / draw_arrow_from_vertices), "
                             "trace grouping/merging, plotly/matplotlib/pyvista glue: "
@@ -43,9 +46,11 @@ def run(ctx, model_ok):
                             "frames: 'the last path row is always displayed' and 'no row is drawn twice' hold only for the show_path classes named in "
                             "frames_contains_last_partial / frames_rows_strictly_increasing_partial (witness theorems show the exclusions are necessary)",
                             "CylinderSegment, Tetrahedron, TriangularMesh, Triangle, Dipole, Sensor graphics are not mapped back by the oracle",
-                            "placement: place_is_pose / place_inverse / place_preserves_extent are about a function `place` DEFINED INSIDE Props/C19.lean (f.(s.(R.v)+p) for an abstract group action, "
-                            "R any group element, not an isometry); it is not a Model/ function, the driver does not run it and no stream compares it with place_and_orient_model3d (only the "
-                            "orientation=None, integer-position call inside make_Cuboid is streamed): rotation, scale and length factor of the real function are tied by the display oracle only",
+                            "placement: place_is_pose / place_inverse / place_preserves_extent are about Display.place (Model/Display.lean), the vertex map of Display.placeModel "
+                            "(= place_and_orient_model3d; placeModel_vertices, placeModel_early_return), executed by the driver (`disp place`) and compared with the real function by the "
+                            "place rows of the disp stream on dyadic data (integer vertices / positions, octahedral rotations, scale and length factor powers of two; real values snapped to the "
+                            "1/64 grid with tolerance 1e-6). Still abstract: R is any element of a group acting on V (not an isometry), scipy's Rotation.apply is assumed to be that action; "
+                            "coordsargs mixing dict keys and args[i], non-array coordinate entries and trace values other than arrays / strings are not in the model",
                             "Cuboid and Tetrahedron models are over the integers (doubled coordinates): theorems and stream rows cover integer dimensions / positions / vertices only; their sign and "
                             "index tables are hand-copied literals pinned by the disp stream, not regenerated",
                             "'spans the full extent': Cylinder graphic x = -d/2 only for even N and y = +-d/2 only when 4 | N (default 50: not); Sphere graphic: only the z-extent (poles); "
